@@ -1850,6 +1850,19 @@ func (w *WEval) atomString(t *T) string {
 			return s
 		}
 	}
+	// W spells calls of small helpers by their bodies: the term is then read back from the spelling
+	if hasKind(t, "call") {
+		pt := map[string]types.Type{}
+		for p, name := range w.args {
+			if prm, ok := p.(*ssa.Parameter); ok {
+				pt[name] = prm.Type()
+			}
+		}
+		if g := parseAtom(s, pt); g != nil {
+			registerAtom(s, g)
+			return s
+		}
+	}
 	registerAtom(s, t)
 	return s
 }
